@@ -6,6 +6,8 @@
   kahn <root> <obj> …                   → write order of `sort_kahn`
   pack <root> <obj> …                   → hex of `serialize` after `sort_kahn` (graphs without overflow)
   roots <roots|-> <old:new> …           → `renameRoots`
+  inst <id,id,…> <tmpl obj> …           → object tokens of `instantiate` (template objects: the id field is ignored,
+                                           link targets are indices)
   object token: `id:hexbytes:links`, links = `pos.width.target.adj` joined by `,` or `-`
 -/
 import FontVerif.Model.Base
@@ -38,6 +40,11 @@ def hexOf (bs : List Nat) : String :=
       let d := fun (n : Nat) => if n < 10 then Char.ofNat (48 + n) else Char.ofNat (87 + n)
       [d (b / 16 % 16), d (b % 16)]))
 
+def objToken (e : Obj × Nat) : String :=
+  let ls := if e.1.links.isEmpty then "-" else
+    ",".intercalate (e.1.links.map (fun l => s!"{l.pos}.{l.width}.{l.target}.{l.adj}"))
+  s!"{e.2}:{hexOf e.1.bytes}:{ls}"
+
 def handle (cmd : String) (args : List String) : Option String :=
   match cmd, args with
   | "sched", c0 :: threads => do
@@ -66,6 +73,11 @@ def handle (cmd : String) (args : List String) : Option String :=
       | [a, b] => do let a ← parseNat? a; let b ← parseNat? b; some (a, b)
       | _ => none)
     some (joinNats (renameRoots ps (OSet.ofList rs)))
+  | "inst", ids :: objs => do
+    let ids ← if ids = "-" then some [] else parseNats? (ids.splitOn ",")
+    let es ← objs.mapM parseObj?
+    let r := instantiate (es.map (·.1)) ids
+    some (if r.isEmpty then "-" else " ".intercalate (r.map objToken))
   | _, _ => none
 
 end FontVerif.Drv.C07
